@@ -109,7 +109,7 @@ Proof. split; [left; reflexivity|]. split; vm_compute; reflexivity. Qed.
 (* outside the guard: a C1 control is written as &#128;..&#159;, which user agents read as Windows-1252 *)
 Theorem text_escaping_roundtrip_refuted :
   exists o, write_chars (mkcfg 127 true true [] [] []) [128] = Some o /\ run (Data, []) o = (Data, emit_chars [8364] []).
-Proof. eexists. split; vm_compute; reflexivity. Qed.
+Proof. exists [38; 35; 49; 50; 56; 59]. split; vm_compute; reflexivity. Qed.
 
 (* ---- attribute values (not URL-valued): '<' and '>' and "&{" go out as they are, the rest as references ---------- *)
 Theorem attr_escaping_roundtrip : forall nm ats an toks s, chars_ok s = true ->
